@@ -430,6 +430,12 @@ func runC18(e *Env) {
 				// a complete document followed by something: white space / an XML comment are fine, anything else is not one document
 				body = append(body, pick(r, []string{" garbage{{{", "{\"age\":2}", "\n\n", " \t", "garbage<<<", "<x/>", "<!-- trailing comment -->", "]", "0", "\x00"})...)
 				t.Count("malformed.document_plus_tail", 1)
+			} else if len(body) > 0 && (ct.Kind == "json" || ct.Kind == "xml") && chance(r, 1, 4) {
+				// something in front of a complete document: white space, a byte order mark, an XML declaration or comment
+				// are fine, anything else is not one document
+				head := pick(r, []string{"garbage", "{\"age\":2}", "\n\n", " \t", "<!-- leading comment -->", "<?xml version=\"1.0\"?>\n", "\xef\xbb\xbf", "0", "}}}}::::", "garbage<<<", "x", "\x00"})
+				body = append([]byte(head), body...)
+				t.Count("malformed.head_plus_document", 1)
 			} else if len(body) > 0 {
 				if chance(r, 1, 2) {
 					body = body[:r.IntN(len(body))]
@@ -479,7 +485,7 @@ func runC18(e *Env) {
 			// (for XML the independent decoder is as lenient about text behind the root element as the
 			// library's: strictDoc looks at what follows the first document itself)
 			if ierr == nil && !strictDoc(ct.Kind, body) {
-				ierr = fmt.Errorf("data after the top-level value")
+				ierr = fmt.Errorf("content before or after the single top-level value")
 			}
 			if ierr != nil && err == nil && (strictDocKinds[ct.Kind] || !jsonPrefixValid(ct.Kind, body)) {
 				t.Fail("malformed-accepted", "%s body %q is refused by an independent decoder (%v) but the binder reported success, bound %+v", ct.Kind, body, ierr, got)
@@ -741,26 +747,39 @@ func strictDoc(kind string, body []byte) bool {
 		_, err := dec.Token()
 		return err == io.EOF
 	}
-	dec := xml.NewDecoder(bytes.NewReader(body))
-	if dec.Decode(&probe) != nil {
+	if xml.NewDecoder(bytes.NewReader(body)).Decode(&probe) != nil {
 		return false
 	}
+	// one document: outside the root element only white space (a byte order mark in front), comments,
+	// processing instructions and directives
+	dec := xml.NewDecoder(bytes.NewReader(body))
+	depth, seenRoot := 0, false
 	for {
 		tok, err := dec.Token()
 		if err == io.EOF {
-			return true
+			return seenRoot && depth == 0
 		}
 		if err != nil {
 			return false
 		}
 		switch x := tok.(type) {
-		case xml.CharData:
-			if len(bytes.TrimSpace(x)) != 0 {
+		case xml.StartElement:
+			if depth == 0 && seenRoot {
 				return false
 			}
-		case xml.Comment, xml.ProcInst, xml.Directive:
-		default:
-			return false
+			seenRoot = true
+			depth++
+		case xml.EndElement:
+			depth--
+		case xml.CharData:
+			if depth == 0 {
+				if !seenRoot {
+					x = bytes.TrimPrefix(x, []byte("\xef\xbb\xbf"))
+				}
+				if len(bytes.TrimSpace(x)) != 0 {
+					return false
+				}
+			}
 		}
 	}
 }
